@@ -178,7 +178,8 @@ def h_signature(V, maxn=2, falsify=False):
     V.observe('text', text)
 
 
-RXNS = ['[CH3:1][OH:2]>>[CH3:1][O-:2]', '[CH3:1][CH:2]=[O:3].[OH2:4]>>[CH3:1][CH:2]([OH:3])[OH:4]',
+RXNS = ['[OH:1][CH2:2][CH2:3][OH:4]>>[O-:1][CH2:2][CH2:3][OH:4]', '[CH3:1][OH:2]>>[CH3:1][O-:2]',
+        '[CH3:1][CH:2]([CH3:3])[CH3:4]>>[CH3:1][C:2]([CH3:3])[CH3:4] |^1:5|', '[CH3:1][CH:2]=[O:3].[OH2:4]>>[CH3:1][CH:2]([OH:3])[OH:4]',
         '[CH3:1][Cl:2].[OH-:3]>>[CH3:1][OH:3].[Cl-:2]', '[CH2:1]=[CH2:2].[CH2:3]=[CH2:4]>>[CH2:1]1[CH2:2][CH2:4][CH2:3]1',
         '[CH3:1][CH2:2][CH2:3]>>[CH3:1][CH:2]=[CH2:3] |^1:2|', '[CH3:1][C:2]#[N:3]>>[CH3:1][N+:3]#[C-:2]']
 
@@ -218,6 +219,6 @@ def jobs(tier):
     J.append({'harness': 'signature', 'params': {'maxn': 3 if T else 2}, 'budget_s': 900, 'validate_every': 20,
               'max_failures': 20})
     J.append({'harness': 'signature', 'params': {'maxn': 1, 'falsify': True}, 'twin': True, 'budget_s': 120, 'max_failures': 1})
-    for rx in (RXNS if T else RXNS[:3]):
+    for rx in (RXNS if T else RXNS[:4]):
         J.append({'harness': 'cgr_renumber', 'params': {'rxn': rx}, 'budget_s': 600, 'validate_every': 50, 'max_failures': 10})
     return J
